@@ -182,15 +182,23 @@ namespace {
       return lexicon->get_identifier(util::word_view { u });
    }
 
+   // The type operand of whatever is being made: every built-in type in turn (the ones with a meaning of their own to the language --
+   // `...`, `void`, `auto`, `typename`, `decltype(nullptr)` -- included), then compound types; what a type says never decides where
+   // a region lies, who owns it or what it binds.
    const ipr::Type& some_type()
    {
-      switch (counter++ % 5) {
-      case 0: return lexicon->int_type();
-      case 1: return lexicon->bool_type();
-      case 2: return lexicon->char_type();
-      case 3: return lexicon->double_type();
-      default: return lexicon->get_pointer(lexicon->int_type());
-      }
+      auto& L = *lexicon;
+      const ipr::Type* all[] = {
+         &L.int_type(), &L.bool_type(), &L.char_type(), &L.double_type(), &L.get_pointer(L.int_type()),
+         &L.ellipsis_type(), &L.void_type(), &L.typename_type(), &L.default_value().type(), &L.nullptr_value().type(),
+         &L.schar_type(), &L.uchar_type(), &L.wchar_t_type(), &L.char8_t_type(), &L.char16_t_type(), &L.char32_t_type(),
+         &L.short_type(), &L.ushort_type(), &L.uint_type(), &L.long_type(), &L.ulong_type(), &L.long_long_type(), &L.ulong_long_type(),
+         &L.float_type(), &L.long_double_type(), &L.class_type(), &L.union_type(), &L.enum_type(), &L.namespace_type(),
+         &L.get_reference(L.char_type()), &L.get_rvalue_reference(L.ellipsis_type()), &L.get_qualified(L.const_qualifier(), L.int_type()),
+         &L.get_pointer(L.void_type()), &L.get_qualified(L.volatile_qualifier(), L.ellipsis_type()),
+         &L.get_as_type(L.get_identifier(u8"__int128")),
+      };
+      return *all[counter++ % (sizeof all / sizeof all[0])];
    }
 
    std::string type_str(const ipr::Type& t)
